@@ -17,6 +17,19 @@ class SchedulerCrash(Exception):
         self.fault = fault
 
 
+class SchedulerInterrupt(KeyboardInterrupt):
+    """The run is interrupted from inside the scheduling algorithm by something that is not an Exception subclass (Ctrl-C while
+    a solver runs, sys.exit() in a callback): an exception raised from the scheduler all the same."""
+
+    def __init__(self, fault):
+        super().__init__("injected interrupt %r" % (fault,))
+        self.fault = fault
+
+
+def crash_of(fault):
+    return SchedulerInterrupt(fault) if fault.get("exc") == "interrupt" else SchedulerCrash(fault)
+
+
 class StubEstimator(sut.UpperBoundEstimatorBase):
     """Upper-bound estimator with known per-session bounds (keyed by session id, as the base class documents)."""
 
@@ -311,7 +324,7 @@ class Party(sut.BaseAlgorithm):
         if fk == "crash" and fault.get("when", "before") == "before":
             ctx.fired("crash")
             rec["crashed"] = True
-            raise SchedulerCrash(fault)
+            raise crash_of(fault)
         handed = None
         if fk in ("mutate", "mutate_crash") or ctx.observe:
             self.observe(iface, rec)
@@ -340,7 +353,7 @@ class Party(sut.BaseAlgorithm):
             rec["digest_after_mutation"] = ctx.state_digest()
             ctx.fired("mutate_crash")
             rec["crashed"] = True
-            raise SchedulerCrash(fault)
+            raise crash_of(fault)
         elif fk == "beyond_horizon":
             width = ctx.sim.pilot_signals.shape[1]
             L = max(1, width - t) + fault["extra_len"]
@@ -386,7 +399,7 @@ class Party(sut.BaseAlgorithm):
         if fk == "crash":
             ctx.fired("crash")
             rec["crashed"] = True
-            raise SchedulerCrash(fault)
+            raise crash_of(fault)
         if self.sc["party"].get("reverse_keys") and isinstance(sched, dict):
             sched = dict(reversed(list(sched.items())))
         rec["schedule"] = {k: [float(x) for x in v] for k, v in sched.items()}
